@@ -97,23 +97,53 @@ fn k_substr_skips() {
     std::mem::forget(args);
 }
 
-/// join concatenates in query order with the delimiter strictly between elements; non-strings / unresolved => error
+/// an ASCII string of 0 or 1 symbolic bytes
+fn short_string() -> (String, usize, u8) {
+    let mut s = String::with_capacity(2);
+    let n: usize = kani::any();
+    kani::assume(n <= 1);
+    let b: u8 = kani::any();
+    kani::assume(b < 128);
+    if n == 1 {
+        s.push(b as char);
+    }
+    (s, n, b)
+}
+
+/// join concatenates in query order with the delimiter strictly between elements -- elements may be EMPTY strings;
+/// non-strings / unresolved => error
 #[cfg_attr(kani, kani::proof)]
+#[cfg_attr(kani, kani::unwind(8))]
 #[cfg_attr(kani, kani::stub(alloc::fmt::format, fmt_stub))]
 #[cfg_attr(verif_replay, test)]
 fn k_join() {
     lib_only!();
-    let a = ascii_string(1);
-    let b = ascii_string(1);
-    let c = ascii_string(1);
+    let (a, na, a0) = short_string();
+    let (b, nb, b0) = short_string();
+    let (c, nc, c0) = short_string();
     let d = ascii_string(1);
-    let (a0, b0, c0, d0) = (a.as_bytes()[0], b.as_bytes()[0], c.as_bytes()[0], d.as_bytes()[0]);
+    let d0 = d.as_bytes()[0];
     let args = vec![qr_str(a), qr_str(b), qr_str(c)];
     let r = join(&args, d.as_str());
+    // expected: a d b d c
+    let mut want = [0u8; 5];
+    let mut n = 0usize;
+    if na == 1 { want[n] = a0; n += 1; }
+    want[n] = d0; n += 1;
+    if nb == 1 { want[n] = b0; n += 1; }
+    want[n] = d0; n += 1;
+    if nc == 1 { want[n] = c0; n += 1; }
     match &r {
         Ok(PathAwareValue::String((_, s))) => {
             let x = s.as_bytes();
-            kani::assert(x.len() == 5 && x[0] == a0 && x[1] == d0 && x[2] == b0 && x[3] == d0 && x[4] == c0, "a d b d c");
+            kani::assert(x.len() == n, "n elements are separated by exactly n-1 delimiters");
+            let mut k = 0;
+            while k < 5 {
+                if k < n && k < x.len() {
+                    kani::assert(x[k] == want[k], "elements in query order with the delimiter between them");
+                }
+                k += 1;
+            }
         }
         _ => kani::assert(false, "join of strings yields a string"),
     }
@@ -134,5 +164,5 @@ fn k_join() {
     let r = join(&bad2, d.as_str());
     kani::assert(r.is_err(), "joining an unresolved value is an error");
     std::mem::forget(r);
-    std::mem::forget((bad, bad2, d));
+    std::mem::forget((bad, bad2, d, empty));
 }
